@@ -238,6 +238,8 @@ pub struct Stats {
     pub sig_counts: BTreeMap<String, u64>,
     pub evaluations: u64,
     pub harness_errors: Vec<String>,
+    /// case seeds whose spec passed clap's validity gate (for the release-build replay tier)
+    pub accepted_seeds: Vec<u64>,
 }
 
 impl Stats {
@@ -255,6 +257,7 @@ impl Stats {
             sig_counts: BTreeMap::new(),
             evaluations: 0,
             harness_errors: Vec::new(),
+            accepted_seeds: Vec::new(),
         }
     }
     pub fn count(&mut self, k: &str) {
@@ -358,13 +361,9 @@ impl Stats {
                 o.push(',');
             }
             first = false;
-            let _ = write!(
-                o,
-                "{{\"sig\":{},\"detail\":{},\"case_seed\":\"{}\"}}",
-                jstr(&v.sig),
-                jstr(&v.detail),
-                v.case_seed
-            );
+            // violations found by the deterministic enumeration are replayed by re-running that slice
+            let cs = if v.case_seed == u64::MAX { format!("exhaustive:{}", shard) } else { v.case_seed.to_string() };
+            let _ = write!(o, "{{\"sig\":{},\"detail\":{},\"case_seed\":\"{}\"}}", jstr(&v.sig), jstr(&v.detail), cs);
         }
         o.push_str("],\"harness_errors\":[");
         first = true;
